@@ -323,9 +323,13 @@ def _make_ukf(n, alpha, kappa, resample=False):
     )  # fmt: skip
 
 
-def _run_ukf(n, alpha, kappa, obs, mode="update", resample=False):
+def _run_ukf(n, alpha, kappa, obs, mode="update", resample=False, warm=None):
     filt = _make_ukf(n, alpha, kappa, resample)
     filt.predict(ScenarioTime(DT))
+    if warm is not None:
+        # the same filter object first looks at another stack (a forecast, as the reward computation does before an
+        # update): nothing learnt from that stack's layout may leak into the update that follows
+        filt.forecast(warm)
     if mode == "forecast":
         filt.forecast(obs)
     else:
@@ -894,6 +898,10 @@ def _ukf_multiset(res, tier, seed, ci, mi, ph):
             else:  # the bookkeeping the reference comparison would also see: flags follow the permuted order
                 res.case("ukf/permutation/is_angular", cpub, bool(np.array_equal(f_perm.is_angular, [k != LIN for k in kinds_p])),
                          nontrivial=True, signature="C16/ukf/permutation/is_angular", observed=f_perm.is_angular, item=it)  # fmt: skip
+            # the same update on a filter object that has already processed the un-permuted stack
+            f_warm = _run_ukf(n, alpha, kappa, obs_perm, warm=obs_s)
+            _same_posterior(res, "ukf/permutation_used_filter", "C16/ukf/permutation_used_filter", cpub, f_warm, f_perm, tol_perm, sig0, True, it)
+            _innovation_range(res, "ukf/permutation_used_filter", cpub, f_warm, kinds_p, True, it)
             res.observe(f_perm.est_x)
 
 
@@ -1013,9 +1021,11 @@ def _real_h(obs, t0):  # noqa: ARG001
     return hfun
 
 
-def _run_real_ukf(x0, p0, q, alpha, obs):
+def _run_real_ukf(x0, p0, q, alpha, obs, warm=None):
     filt = UnscentedKalmanFilter(10001, ScenarioTime(0.0), x0.copy(), p0.copy(), _LinDyn(6), q.copy(), alpha=alpha, beta=2.0)
     filt.predict(ScenarioTime(DT))
+    if warm is not None:
+        filt.forecast(warm)
     filt.update(obs)
     return filt
 
@@ -1079,6 +1089,9 @@ def _run_real_item(res, item):
         cpub = {**pub, "variant": "permuted", "order": list(order)}
         _same_posterior(res, "real/permutation", "C16/real/permutation", cpub, f_p, f0, tol_perm, sig0, True, it, perm=cperm)
         _innovation_range(res, "real/permutation", cpub, f_p, [kinds[i] for i in cperm], True, it)
+        f_w = _run_real_ukf(x0, p0, q, alpha, obs_p, warm=obs)
+        _same_posterior(res, "real/permutation_used_filter", "C16/real/permutation_used_filter", cpub, f_w, f_p, tol_perm, sig0, True, it)
+        _innovation_range(res, "real/permutation_used_filter", cpub, f_w, [kinds[i] for i in cperm], True, it)
 
 
 # =================================================================================================== GPF
